@@ -120,23 +120,36 @@ Mk(ln, g, v, xs, backed) == LET layout == ln[1] names == ln[2] k == NRes(layout)
      rnodes |-> {[id |-> r + Off(v), name |-> names[r]] : r \in 1..k},
      redges |-> {{r + Off(v) : r \in e} : e \in g.re}]
 VOf(ln, g) == 1 + ((Len(ln[1]) + Cardinality(g.re)) % 3)
-\* molecules over the layouts LN, interaction lists F(n), graphs GR(k); allv: every attribute variant, else one derived from the shape
-FamilyOn(LN, F(_), GR(_), allv) ==
-    UNION {UNION {UNION {{Mk(ln, g, v, xs, TRUE) : xs \in {ys \in F(Len(ln[1])) : \A i \in DOMAIN ys : Linkable(ln[1], g, ys[i])}} :
-                           v \in (IF allv THEN {1, 2, 3} ELSE {VOf(ln, g)})} : g \in GR(NRes(ln[1]))} : ln \in LN}
+(* The instances are given as initial-state predicates (TLC builds big sets of records with quadratic effort, initial states are   *)
+(* hashed): molecules over the layouts LN, interaction lists F(n), graphs GR(k); allv: every attribute variant, else one derived   *)
+(* from the shape.                                                                                                                  *)
+InitRest == /\ pc = "start" /\ out = <<>> /\ secs = {} /\ cur = "" /\ groups = <<>> /\ pend = <<>>
+            /\ gopen = NoGuard /\ late = FALSE /\ rd = R0 /\ ri = 1
+Pick(LN, F(_), GR(_), allv) ==
+    \E ln \in LN : \E g \in GR(NRes(ln[1])) : \E v \in (IF allv THEN {1, 2, 3} ELSE {VOf(ln, g)}) : \E xs \in F(Len(ln[1])) :
+        /\ \A i \in DOMAIN xs : Linkable(ln[1], g, xs[i])
+        /\ mol = Mk(ln, g, v, xs, TRUE)
 CoreLayouts == {ln \in LayoutNames : ln \in {<<(<<1, 2, 2, 3>>), (<<"A", "B", "A">>)>>, <<(<<1, 1, 2, 2>>), (<<"A", "B">>)>>, <<(<<1, 2, 2>>), (<<"B", "A">>)>>}}
 GraphsOne(k) == CASE k = 1 -> {[re |-> {}, ln |-> {}]} [] k = 2 -> {[re |-> {E12}, ln |-> {E12}]} [] OTHER -> {[re |-> {E12, E23}, ln |-> {E12, E23}]}
 \* quick: every single interaction of the catalogue on every layout; attribute variants x all graphs (incl. missing links);
 \* the short catalogue on all graphs; pairs / triples of one section and guarded bond + other section on the core layouts
-MolsQuick(z) == FamilyOn(LayoutNames, Fam1, GraphsSmall, FALSE) \cup FamilyOn(LayoutNames, FamAttr, GraphsFor, TRUE)
-                \cup FamilyOn(LayoutNames, Fam0, GraphsFor, FALSE) \cup FamilyOn(CoreLayouts, Fam2, GraphsOne, FALSE)
-                \cup FamilyOn(CoreLayouts, Fam3, GraphsOne, FALSE) \cup FamilyOn(CoreLayouts, Fam4, GraphsOne, FALSE)
-MolsFull(z) == FamilyOn(LayoutNames, Fam1, GraphsFor, TRUE) \cup FamilyOn(LayoutNames, Fam2, GraphsFor, FALSE)
-               \cup FamilyOn(LayoutNames, Fam3, GraphsFor, FALSE) \cup FamilyOn(LayoutNames, Fam4, GraphsFor, FALSE)
-\* tiny instance for the sensitivity runs (every deviation has a witness in it)
-MolsDev(z) == FamilyOn(CoreLayouts, Fam4, GraphsOne, FALSE) \cup FamilyOn(CoreLayouts, Fam3, GraphsOne, FALSE)
+QuickInit == /\ \/ Pick(LayoutNames, Fam1, GraphsSmall, FALSE) \/ Pick(LayoutNames, FamAttr, GraphsFor, TRUE)
+                \/ Pick(LayoutNames, Fam0, GraphsFor, FALSE) \/ Pick(CoreLayouts, Fam2, GraphsOne, FALSE)
+                \/ Pick(CoreLayouts, Fam3, GraphsOne, FALSE) \/ Pick(CoreLayouts, Fam4, GraphsOne, FALSE)
+             /\ InitRest
+FullInit == /\ \/ Pick(LayoutNames, Fam1, GraphsFor, TRUE) \/ Pick(LayoutNames, Fam2, GraphsFor, FALSE)
+               \/ Pick(LayoutNames, Fam3, GraphsFor, FALSE) \/ Pick(LayoutNames, Fam4, GraphsFor, FALSE)
+            /\ InitRest
+\* small instance for the sensitivity runs (every deviation has a witness in it)
+DevInit == (Pick(CoreLayouts, Fam4, GraphsOne, FALSE) \/ Pick(CoreLayouts, Fam3, GraphsOne, FALSE)) /\ InitRest
 (* finding instances: the same molecules with (a) an atom that has a mass but no charge, (b) a linked residue pair whose only   *)
 (* atom-level edge is not a bond or constraint (made by an angle, a virtual site or an [ edges ] line of the link)              *)
-MolsMassOnly(z) == UNION {UNION {{Mk(ln, g, 4, xs, TRUE) : xs \in {<<>>}} : g \in GraphsSmall(NRes(ln[1]))} : ln \in LayoutNames}
-MolsUnbacked(z) == UNION {UNION {{Mk(ln, g, 1, xs, FALSE) : xs \in {<<>>}} : g \in {h \in GraphsFor(NRes(ln[1])) : h.ln # {}}} : ln \in LayoutNames}
+MassOnlyPick == \E ln \in LayoutNames : \E g \in GraphsSmall(NRes(ln[1])) : mol = Mk(ln, g, 4, <<>>, TRUE)
+UnbackedPick == \E ln \in LayoutNames : \E g \in {h \in GraphsFor(NRes(ln[1])) : h.ln # {}} :
+                  \E xs \in {<<>>} \cup {<<X("angles", t, 1, NoGuard)>> : t \in {u \in {<<1, 2, 3>>} : Len(ln[1]) = 3 /\ NRes(ln[1]) = 3 /\ Cardinality(g.ln) = 2}} :
+                     mol = Mk(ln, g, 1, xs, FALSE)
+MassOnlyInit == MassOnlyPick /\ InitRest
+UnbackedInit == UnbackedPick /\ InitRest
+FindInit == (MassOnlyPick \/ UnbackedPick) /\ InitRest
+XNext == FALSE /\ UNCHANGED vars
 =============================================================================
